@@ -1,5 +1,33 @@
 import GnoVerif.Base.Kit
 import GnoVerif.Model.C02RunTxProto
-/-! Driver for C02: the runTx model on protocol lines (see Model/C02RunTxProto.lean). -/
+import GnoVerif.Model.C02Vm
+/-!
+Driver for C02.  Two streams share the line protocol:
 
-def main : IO Unit := GnoVerif.Kit.loop ({} : GnoVerif.C02.Proto.PState) GnoVerif.C02.Proto.step
+* the runTx model on protocol lines (see Model/C02RunTxProto.lean);
+* lines starting with `vtx`, `vsim`, `vq`, `vrestart`: the summary model of a
+  history of real gno.land transactions (see Model/C02Vm.lean).
+-/
+namespace GnoVerif.Drive.C02
+open GnoVerif
+
+structure St where
+  runtx : C02.Proto.PState := {}
+  vm : C02.Vm.VState := {}
+
+def step (s : St) (t : List String) : St × String :=
+  match t with
+  | op :: _ =>
+    if C02.Vm.isVmOp op then
+      let r := C02.Vm.step s.vm t
+      ({ s with vm := r.1 }, r.2)
+    else
+      let r := C02.Proto.step s.runtx t
+      ({ s with runtx := r.1 }, r.2)
+  | [] =>
+    let r := C02.Proto.step s.runtx t
+    ({ s with runtx := r.1 }, r.2)
+
+end GnoVerif.Drive.C02
+
+def main : IO Unit := GnoVerif.Kit.loop ({} : GnoVerif.Drive.C02.St) GnoVerif.Drive.C02.step
